@@ -120,22 +120,22 @@ Section Proofs.
       repeat split; congruence.
   Qed.
 
-  Lemma tt_updateTB_frame : forall t rt kind maxT genOK mta,
-    tableSize (fst (tt_updateTB t rt kind maxT genOK mta)) = tableSize t /\
-    generation (fst (tt_updateTB t rt kind maxT genOK mta)) = generation t.
+  Lemma tt_updateTB_frame : forall ab t rt kind maxT genOK mta,
+    tableSize (fst (tt_updateTB ab t rt kind maxT genOK mta)) = tableSize t /\
+    generation (fst (tt_updateTB ab t rt kind maxT genOK mta)) = generation t.
   Proof.
     intros. unfold tt_updateTB.
     destruct kind as [cls|].
     - destruct (match tbResident t with Some c => c =? cls | None => false end); [cbn; auto|].
       destruct ((0 <=? maxT)%Z && (maxT <? rt)%Z); [cbn; auto|].
       destruct (tableSize t * 16 <? tbBytes + 2 * 1024 * 1024); [cbn; auto|].
-      destruct genOK; cbn; auto.
+      destruct genOK; [cbn; auto|]. destruct ab; cbn; auto.
     - destruct (tbResident t); [|cbn; auto].
       destruct (3 <? notUsedCnt t)%Z; cbn; auto.
   Qed.
 
   Lemma prologue_frame : forall s c genOK mta,
-    let s' := search_prologue s c genOK mta in
+    let s' := search_prologue V s c genOK mta in
     tableSize (st_tt s') = tableSize (st_tt s) /\ st_opts s' = st_opts s /\
     (generation (st_tt s) < 16 -> generation (st_tt s') < 16).
   Proof.
@@ -147,8 +147,8 @@ Section Proofs.
     destruct T1 as [T1 G1].
     destruct (sc_limited c).
     - cbn [st_tt st_opts]. repeat split; auto.
-    - pose proof (tt_updateTB_frame t1 (st_requiredTime s) (sc_tbkind c) (sc_maxTime c) genOK mta) as [U1 U2].
-      destruct (tt_updateTB t1 _ _ _ _ _) as [t2 rt]. cbn [fst] in U1, U2.
+    - pose proof (tt_updateTB_frame (tbabort_drops_tb V) t1 (st_requiredTime s) (sc_tbkind c) (sc_maxTime c) genOK mta) as [U1 U2].
+      destruct (tt_updateTB _ t1 _ _ _ _ _) as [t2 rt]. cbn [fst] in U1, U2.
       cbn [st_tt st_opts]. repeat split; try congruence. intro. rewrite U2. auto.
   Qed.
 
@@ -164,7 +164,7 @@ Section Proofs.
     - destruct I as [I1 I2].
       pose proof (prologue_frame s c genOK maxTAfter) as P. cbv zeta in P. destruct P as (P1 & P2 & P3).
       pose proof (apply_writes_frame (white_contempt (st_opts s) (sc_white c))
-                    (oracle c nd (relevant V c s)) (search_prologue s c genOK maxTAfter)) as W.
+                    (oracle c nd (relevant V c s)) (search_prologue V s c genOK maxTAfter)) as W.
       cbv zeta in W. destruct W as (W1 & W2 & _ & _ & _ & _ & W7 & _).
       unfold Inv, set_clearHistory. cbn [st_tt st_opts]. rewrite W1, W2, W7, P1, P2. split; auto.
     - apply set_option_Inv; auto.
@@ -293,8 +293,8 @@ Section Proofs.
   Proof. intros. unfold relevant, with_irrelevant, search_generation. cbn. rewrite H. reflexivity. Qed.
 
   Lemma prologue_irrelevant : forall s c k ch b genOK mta, sc_limited c = true ->
-    let p := search_prologue (with_irrelevant s k ch b (notUsedCnt (st_tt s))) c genOK mta in
-    let q := search_prologue s c genOK mta in
+    let p := search_prologue V (with_irrelevant s k ch b (notUsedCnt (st_tt s))) c genOK mta in
+    let q := search_prologue V s c genOK mta in
     st_tt p = st_tt q /\ st_hist p = st_hist q /\ st_killers p = st_killers q /\
     st_evalCache p = st_evalCache q /\ st_matCache p = st_matCache q /\ st_opts p = st_opts q /\
     st_randomSeed p = st_randomSeed q /\ st_requiredTime p = st_requiredTime q.
@@ -322,7 +322,7 @@ Lemma f5_witness :
 Proof. vm_compute. repeat split. Qed.
 
 (** F3: a search under another contempt leaves eval-cache entries that Clear Hash keeps *)
-Definition gen_fixed_only : Variant := mkVariant true false false.
+Definition gen_fixed_only : Variant := mkVariant true false false false.
 Definition one_eval_write : SearchCmd -> N -> View -> list Write := fun _ _ _ => [WEval 5 123].
 Definition f3_history : list Cmd :=
   [SetOption OContempt 30%Z; Search prior_cmd 0 true 0%Z; SetOption OContempt 0%Z].
